@@ -54,7 +54,7 @@ reg("C14", "h_c14", "asan")
 reg("C20", "h_c20")
 
 # quick / thorough wall-clock budgets per check (seconds); hitting one ends the run with exhaustive:false
-DEADLINE = {"quick": 150, "thorough": 1500}
+DEADLINE = {"quick": 150, "thorough": 2400}
 
 
 def sh(cmd, **kw):
